@@ -221,6 +221,8 @@ tagspec(struct scope *s)
 			scopeputtag(s, tag, t);
 	}
 	if (tok.kind != TLBRACE) {
+		if (!tag)
+			error(&tok.loc, "expected identifier or '{' after '%s'", kind == TYPESTRUCT ? "struct" : kind == TYPEUNION ? "union" : "enum");
 		/* an enum type is only usable once it is complete (C11 6.7.2.3p3) */
 		if (kind == TYPEENUM && t->incomplete && !t->base)
 			error(&tok.loc, "enum '%s' is used before its definition", tag ? tag : "");
